@@ -173,7 +173,13 @@ mod tests {
 /// Container headers (byte string, text string, array, map) that sit *contiguously* in the
 /// buffer: `(offset of the header byte, header length)`. Headers inside nested encodings that
 /// are carried as arrays of integers are not listed: an in-place word write cannot reach them.
-fn headers(b: &[u8], base: usize, pos: &mut usize, out: &mut Vec<(usize, usize)>, depth: usize) -> Option<()> {
+fn headers(
+    b: &[u8],
+    base: usize,
+    pos: &mut usize,
+    out: &mut Vec<(usize, usize)>,
+    depth: usize,
+) -> Option<()> {
     if depth > 64 {
         return None;
     }
@@ -192,7 +198,16 @@ fn headers(b: &[u8], base: usize, pos: &mut usize, out: &mut Vec<(usize, usize)>
             if major == 2 && len >= 2 && b[*pos] == 1 {
                 let mut inner = 1usize;
                 let mut nested = Vec::new();
-                if headers(&b[*pos..end], base + *pos, &mut inner, &mut nested, depth + 1).is_some() && inner == len {
+                if headers(
+                    &b[*pos..end],
+                    base + *pos,
+                    &mut inner,
+                    &mut nested,
+                    depth + 1,
+                )
+                .is_some()
+                    && inner == len
+                {
                     out.extend(nested);
                 }
             }
@@ -223,25 +238,51 @@ fn headers(b: &[u8], base: usize, pos: &mut usize, out: &mut Vec<(usize, usize)>
 pub fn word_fields(bytes: &[u8]) -> Vec<crate::faults::WordField> {
     use crate::faults::{WordEnc, WordField};
     let mut out = Vec::new();
-    if bytes.first() != Some(&1) {
-        return out;
-    }
-    for off in [0usize, 1, 8, 9] {
-        if off + 8 <= bytes.len() {
-            out.push(WordField { off, width: 8, enc: WordEnc::Be, hex: false });
+    let mut hs = Vec::new();
+    if bytes.first() == Some(&1) {
+        for off in [0usize, 1, 8, 9] {
+            if off + 8 <= bytes.len() {
+                out.push(WordField {
+                    off,
+                    width: 8,
+                    enc: WordEnc::Be,
+                    hex: false,
+                });
+            }
+        }
+        let mut pos = 1usize;
+        let _ = headers(bytes, 0, &mut pos, &mut hs, 0);
+    } else {
+        // plain CBOR without version prefix (operational certificate): only if it parses exactly
+        let mut pos = 0usize;
+        if headers(bytes, 0, &mut pos, &mut hs, 0).is_none()
+            || pos != bytes.len()
+            || bytes.len() < 16
+        {
+            return out;
         }
     }
-    let mut hs = Vec::new();
-    let mut pos = 1usize;
-    let _ = headers(bytes, 0, &mut pos, &mut hs, 0);
     // the thousands of string headers of a big document are thinned evenly to 48
-    let keep: Vec<(usize, usize)> =
-        if hs.len() <= 48 { hs } else { (0..48).map(|i| hs[i * hs.len() / 48]).collect() };
+    let keep: Vec<(usize, usize)> = if hs.len() <= 48 {
+        hs
+    } else {
+        (0..48).map(|i| hs[i * hs.len() / 48]).collect()
+    };
     for (off, hl) in keep {
         if hl > 1 {
-            out.push(WordField { off: off + 1, width: hl - 1, enc: WordEnc::Be, hex: false });
+            out.push(WordField {
+                off: off + 1,
+                width: hl - 1,
+                enc: WordEnc::Be,
+                hex: false,
+            });
         }
-        out.push(WordField { off, width: 8, enc: WordEnc::CborHeader, hex: false });
+        out.push(WordField {
+            off,
+            width: 8,
+            enc: WordEnc::CborHeader,
+            hex: false,
+        });
     }
     out
 }
